@@ -12,6 +12,7 @@
    `one_word u w` decides whether w alone is exactly one Word token, `lint_text` = tokenise, then lint. *)
 Require Import Base Tables_lexer Lexer Condense Tables_spellnorm SpellDecision SpellDecisionProofs.
 Require Import Tables_f24 C06Words C06WordsProofs C06TextProofs C06AlnumProofs C06DictProofs.
+Require Import TokenInv C06Sentence C06SentenceProofs.
 
 (* the decision, exactly: a word token with text w is accepted iff some entry has its id and is compatible with
    the active dialect, and some entry is spelt — up to normalisation of both sides (ebb53b3) — exactly like w or
@@ -639,3 +640,138 @@ Example C06_nonvacuous_curly_entry :
   contains_exact_word ascii_lc ascii_is_lower D w_blorfs_curly = true /\
   accepts ascii_lc ascii_is_lower D American w_blorfs_curly = true.
 Proof. exact exact_old_rejects_own_entry. Qed.
+
+(* ================= phase 5: C06 INSIDE A SENTENCE — no premise about tokens ================= *)
+(* The class (Model/C06Sentence.v): a list of items — SWord w (a letter followed by letters / ASCII digits), SSpace n (n >= 1
+   blanks), SPunct c (one punctuation character Punctuation::from_char knows, except . : @ [ ' U+2019 and the quote
+   characters) — with no two words and no two blank runs adjacent.  For such a text the token vector of
+   Document::new_plain_english is known: one token per item (every sub-lexer of lex_token is followed; every pass of
+   Document::parse is the identity), so the Word tokens are exactly the word items at their offsets. *)
+Theorem C06_sentence_tokens :
+  forall u : uni, letter_laws u -> digit_law u -> forall its : list sitem, sent_ok u its = true ->
+  document_plain u (sent_text its) = Ok (sent_tokens 0 its) /\ doc_words u (sent_text its) = Ok (sent_words 0 its).
+Proof. exact (fun u L Dl its H => conj (sent_document u L Dl its H) (sent_doc_words u L Dl its H)). Qed.
+Check C06_sentence_tokens :
+  forall u : uni, letter_laws u -> digit_law u -> forall its : list sitem, sent_ok u its = true ->
+  document_plain u (sent_text its) = Ok (sent_tokens 0 its) /\ doc_words u (sent_text its) = Ok (sent_words 0 its).
+Print Assumptions C06_sentence_tokens.
+
+(* the passes, for ANY token vector (not only a sentence's): a tiling whose kinds are Word / Space / punctuation other than
+   period, apostrophe and quote, without two adjacent Space tokens, leaves Document::parse's passes unchanged.  No Unicode
+   law is needed: each merging rule needs a Space pair, a Newline, a Number, an apostrophe or a period (C02's Grouped
+   characterisations of the passes) *)
+Theorem C06_passes_identity :
+  forall (src : text) (ts : list token), Tiling 0 (length src) ts -> simple_toks ts -> no_adj_spaces ts ->
+  document_passes src ts = Ok ts.
+Proof. exact passes_identity. Qed.
+Check C06_passes_identity :
+  forall (src : text) (ts : list token), Tiling 0 (length src) ts -> simple_toks ts -> no_adj_spaces ts ->
+  document_passes src ts = Ok ts.
+Print Assumptions C06_passes_identity.
+
+(* converse half inside a sentence: a word item whose id no entry has is reported, the lint covering exactly the word
+   (word_at pre w = [ |text of pre| , |text of pre| + |w| ) ) *)
+Theorem C06_sentence_unlisted_reported :
+  forall (u : uni) (lc uc : char -> list char) (is_lower is_upper : char -> bool) (fuzzy : dict -> text -> nat -> list text),
+  letter_laws u -> digit_law u -> (forall c, uc c <> []) -> fuzzy_listed fuzzy ->
+  forall D d pre w post, dict_nodup lc is_lower D -> sent_ok u (pre ++ SWord w :: post) = true ->
+  (forall e, In e D -> word_id lc is_lower (canon e) <> word_id lc is_lower w) ->
+  exists ls sg, lint_text u lc uc is_lower is_upper fuzzy D d (sent_text (pre ++ SWord w :: post)) = Ok ls /\
+                In (mkslint (word_at pre w) sg) ls.
+Proof. exact sentence_unlisted_reported. Qed.
+Check C06_sentence_unlisted_reported :
+  forall (u : uni) (lc uc : char -> list char) (is_lower is_upper : char -> bool) (fuzzy : dict -> text -> nat -> list text),
+  letter_laws u -> digit_law u -> (forall c, uc c <> []) -> fuzzy_listed fuzzy ->
+  forall D d pre w post, dict_nodup lc is_lower D -> sent_ok u (pre ++ SWord w :: post) = true ->
+  (forall e, In e D -> word_id lc is_lower (canon e) <> word_id lc is_lower w) ->
+  exists ls sg, lint_text u lc uc is_lower is_upper fuzzy D d (sent_text (pre ++ SWord w :: post)) = Ok ls /\
+                In (mkslint (word_at pre w) sg) ls.
+Print Assumptions C06_sentence_unlisted_reported.
+
+(* positive half inside a sentence: no lint has the span of a word item spelt like a listed form *)
+Theorem C06_sentence_listed_accepted :
+  forall (u : uni) (lc uc : char -> list char) (is_lower is_upper : char -> bool) (fuzzy : dict -> text -> nat -> list text),
+  letter_laws u -> digit_law u -> lower_fix lc is_lower ->
+  forall D d e pre w post ls, dict_nodup lc is_lower D -> In e D -> dialect_ok (edialect e) d = true ->
+  sent_ok u (pre ++ SWord w :: post) = true ->
+  ( w = canon e
+    \/ (normalized (canon e) = canon e /\ lower_case lc is_lower (canon e) /\ w = capitalise uc (canon e) /\
+        Forall (case_regular lc uc) (firstn 1 (canon e)))
+    \/ (normalized (canon e) = canon e /\ lower_case lc is_lower (canon e) /\ w = upper uc (canon e) /\
+        Forall (case_regular lc uc) (canon e)) ) ->
+  lint_text u lc uc is_lower is_upper fuzzy D d (sent_text (pre ++ SWord w :: post)) = Ok ls ->
+  forall l, In l ls -> sl_span l <> word_at pre w.
+Proof. exact sentence_listed_accepted. Qed.
+Check C06_sentence_listed_accepted :
+  forall (u : uni) (lc uc : char -> list char) (is_lower is_upper : char -> bool) (fuzzy : dict -> text -> nat -> list text),
+  letter_laws u -> digit_law u -> lower_fix lc is_lower ->
+  forall D d e pre w post ls, dict_nodup lc is_lower D -> In e D -> dialect_ok (edialect e) d = true ->
+  sent_ok u (pre ++ SWord w :: post) = true ->
+  ( w = canon e
+    \/ (normalized (canon e) = canon e /\ lower_case lc is_lower (canon e) /\ w = capitalise uc (canon e) /\
+        Forall (case_regular lc uc) (firstn 1 (canon e)))
+    \/ (normalized (canon e) = canon e /\ lower_case lc is_lower (canon e) /\ w = upper uc (canon e) /\
+        Forall (case_regular lc uc) (canon e)) ) ->
+  lint_text u lc uc is_lower is_upper fuzzy D d (sent_text (pre ++ SWord w :: post)) = Ok ls ->
+  forall l, In l ls -> sl_span l <> word_at pre w.
+Print Assumptions C06_sentence_listed_accepted.
+
+(* every lint of such a sentence covers exactly one of its word items (nothing else is ever reported) *)
+Theorem C06_sentence_lints_on_words :
+  forall (u : uni) (lc uc : char -> list char) (is_lower is_upper : char -> bool) (fuzzy : dict -> text -> nat -> list text),
+  letter_laws u -> digit_law u -> fuzzy_listed fuzzy ->
+  forall D d its ls l, dict_nodup lc is_lower D -> sent_ok u its = true ->
+  lint_text u lc uc is_lower is_upper fuzzy D d (sent_text its) = Ok ls -> In l ls ->
+  exists pre w post, its = pre ++ SWord w :: post /\ sl_span l = word_at pre w.
+Proof. exact sentence_lints_on_words. Qed.
+Check C06_sentence_lints_on_words :
+  forall (u : uni) (lc uc : char -> list char) (is_lower is_upper : char -> bool) (fuzzy : dict -> text -> nat -> list text),
+  letter_laws u -> digit_law u -> fuzzy_listed fuzzy ->
+  forall D d its ls l, dict_nodup lc is_lower D -> sent_ok u its = true ->
+  lint_text u lc uc is_lower is_upper fuzzy D d (sent_text its) = Ok ls -> In l ls ->
+  exists pre w post, its = pre ++ SWord w :: post /\ sl_span l = word_at pre w.
+Print Assumptions C06_sentence_lints_on_words.
+
+(* F24 in general form (the hyphen / blank / slash shapes of the table: 546 of its 579 entries): a LISTED entry that is
+   a sentence of two or more items is never one Word token, and a part of it whose id no entry has is reported although
+   the entry is listed.  C06_multi_token_text_refuted is the instance socio-political. *)
+Theorem C06_compound_entry_reported :
+  forall (u : uni) (lc uc : char -> list char) (is_lower is_upper : char -> bool) (fuzzy : dict -> text -> nat -> list text),
+  letter_laws u -> digit_law u -> (forall c, uc c <> []) -> fuzzy_listed fuzzy ->
+  forall D d e pre w post, dict_nodup lc is_lower D -> In e D -> canon e = sent_text (pre ++ SWord w :: post) ->
+  sent_ok u (pre ++ SWord w :: post) = true -> 2 <= length (pre ++ SWord w :: post) ->
+  (forall e', In e' D -> word_id lc is_lower (canon e') <> word_id lc is_lower w) ->
+  one_word u (canon e) = false /\
+  exists ls sg, lint_text u lc uc is_lower is_upper fuzzy D d (canon e) = Ok ls /\ In (mkslint (word_at pre w) sg) ls.
+Proof. exact compound_entry_reported. Qed.
+Check C06_compound_entry_reported :
+  forall (u : uni) (lc uc : char -> list char) (is_lower is_upper : char -> bool) (fuzzy : dict -> text -> nat -> list text),
+  letter_laws u -> digit_law u -> (forall c, uc c <> []) -> fuzzy_listed fuzzy ->
+  forall D d e pre w post, dict_nodup lc is_lower D -> In e D -> canon e = sent_text (pre ++ SWord w :: post) ->
+  sent_ok u (pre ++ SWord w :: post) = true -> 2 <= length (pre ++ SWord w :: post) ->
+  (forall e', In e' D -> word_id lc is_lower (canon e') <> word_id lc is_lower w) ->
+  one_word u (canon e) = false /\
+  exists ls sg, lint_text u lc uc is_lower is_upper fuzzy D d (canon e) = Ok ls /\ In (mkslint (word_at pre w) sg) ls.
+Print Assumptions C06_compound_entry_reported.
+
+(* non-vacuity: `Hello, MP3-player (helo)!` is a sentence of the class (ASCII predicates); its tokens are its 10 items, its
+   Word tokens the four words; with the dictionary {hello, MP3, player} exactly `helo` is reported, at [19,23);
+   the F24 witness socio-political is a sentence of three items *)
+Example C06_nonvacuous_sentence :
+  let its := [SWord [72;101;108;108;111]; SPunct 44; SSpace 1; SWord [77;80;51]; SPunct 45;
+              SWord [112;108;97;121;101;114]; SSpace 1; SPunct 40; SWord [104;101;108;111]; SPunct 41; SPunct 33]%N in
+  let D := [mkentry [104;101;108;108;111]%N None; mkentry [77;80;51]%N None; mkentry [112;108;97;121;101;114]%N None] in
+  sent_ok ascii_uni0 its = true /\
+  sent_words 0 its = [mkspan 0 5; mkspan 7 10; mkspan 11 17; mkspan 19 23] /\
+  doc_words ascii_uni0 (sent_text its) = Ok (sent_words 0 its) /\
+  dict_nodup ascii_lc ascii_is_lower D /\
+  lint_text ascii_uni0 ascii_lc ascii_uc ascii_is_lower ascii_is_upper no_fuzzy D American (sent_text its)
+    = Ok [mkslint (mkspan 19 23) []] /\
+  sent_ok ascii_uni0 [SWord [115;111;99;105;111]; SPunct 45; SWord [112;111;108;105;116;105;99;97;108]]%N = true /\
+  sent_text [SWord [115;111;99;105;111]; SPunct 45; SWord [112;111;108;105;116;105;99;97;108]]%N = w_socio_political.
+Proof.
+  cbv zeta. split; [vm_compute; reflexivity|]. split; [vm_compute; reflexivity|].
+  split; [apply (sent_doc_words ascii_uni0 ascii_letter_laws ascii_digit_law); vm_compute; reflexivity|].
+  split; [unfold dict_nodup; vm_compute; repeat constructor; cbn; intuition discriminate|].
+  repeat split; vm_compute; reflexivity.
+Qed.
